@@ -8,10 +8,11 @@ CONSTANTS
     PrefixIdx = {1, 3}
     MaxSteps = 2
     Durs = {1, 2}
-    ParIdx = {1, 2}
+    ParIdx = {1, 5}
     MaxPts = 2
     EpsPts = TRUE
     ReadBefore = TRUE
+    Repeat = FALSE
     Lead = 1
 INIT PInit
 NEXT PNext
